@@ -94,6 +94,9 @@ def constraints(cfg):
         c["probe"] = {"orthogonalize_probe": True, "center_probe": True}
         c["object"] = {"tv_weight_xy": 0.01, "gaussian_sigma": 0.5}
         c["dataset"] = {"descan_tv_weight": 0.01, "center_scan_positions": True}
+    for m, d in (cfg.get("cons1") or {}).items():
+        # round 8: stage-1 constraint dictionaries with non-default values of every entry (harness/c05_stage.CONS1)
+        c[m] = dict(c.get(m, {}), **d)
     if cfg.get("obj_constraints"):
         # round 7: the object constraints of STAGE 1 of a staged run (filter entries and their parameters)
         c["object"] = dict(c.get("object", {}), **cfg["obj_constraints"])
@@ -644,8 +647,9 @@ def compare_numeric(x, y, tol, arr_l2=None, arr_max=None, exact_hist=False):
         i = _hist_diff(x["lrs"][k], y["lrs"][k], True, 0)
         if i is not None:
             return "lr history of %s differs at iteration %d: %s vs %s" % (k, i, x["lrs"][k], y["lrs"][k])
-    if x["constraints"] != y["constraints"]:
-        return "constraints %s vs %s" % (x["constraints"], y["constraints"])
+    m = constraints_diff(x["constraints"], y["constraints"])
+    if m:
+        return m
     for nm in ("obj", "probe"):
         if x[nm].shape != y[nm].shape:
             return "%s shape %s vs %s" % (nm, x[nm].shape, y[nm].shape)
@@ -655,6 +659,27 @@ def compare_numeric(x, y, tol, arr_l2=None, arr_max=None, exact_hist=False):
             return "%s differs by rel %.3g max-norm / %.3g Frobenius (tolerances %.1g / %.1g)" % (
                 nm, r, r2, arr_max, arr_l2)
     return compare_extra(x, y, tol, arr_l2, arr_max, exact_hist)
+
+
+def constraints_diff(x, y):
+    """round 8: the constraint dictionaries, model by model and ENTRY BY ENTRY: the same models, the same entries, and
+    for every entry the same value (None only equals None; numbers / switches by value, so False == 0 == 0.0: the
+    library reads them through `if` / comparisons with 0).  Returns the first difference or None."""
+    if sorted(x) != sorted(y):
+        return "constraints: models %s vs %s" % (sorted(x), sorted(y))
+    for m in sorted(x):
+        a, b = x[m], y[m]
+        if not (isinstance(a, dict) and isinstance(b, dict)):
+            if a != b:
+                return "constraints of %s: %r vs %r" % (m, a, b)
+            continue
+        if sorted(a) != sorted(b):
+            return "constraints of %s: entries %s vs %s" % (m, sorted(a), sorted(b))
+        for k in sorted(a):
+            u, v = a[k], b[k]
+            if (u is None) != (v is None) or u != v:
+                return "constraints entry %s.%s is %r vs %r" % (m, k, u, v)
+    return None
 
 
 def compare_extra(x, y, tol, arr_l2, arr_max, exact_hist=False):
